@@ -12,3 +12,74 @@ package binary
 //@ func NewScalar
 //@   ensures[C08] err-is-unsupported: result1 != nil ==> (result1.isNS || result1.isNI) && result0 == nil
 //@   ensures ok-nonnil: result1 == nil ==> result0 != nil
+
+// ---- table.go ----------------------------------------------------------------------------------
+// Output indices map an input series id to the output series it feeds. nIn: number of input series
+// the index covers; nOut: number of output series (= len(table.outputValues)).
+//@ ghost binary.outputIndex nIn int
+//@ ghost binary.outputIndex nOut int
+//@ interface binary.outputIndex.outputSamples(idx, inputSampleID) r
+//@   requires inputSampleID < idx.nIn
+//@   ensures forall j in 0..len(r) :: r[j] < idx.nOut
+//@ extern field:execution/binary.table.operation(operands, valueIdx) v, keep
+//@   pure
+
+//@ pred tblInv(t) = t != nil && t.pool != nil && t.highCardOutputIndex != nil && t.lowCardOutputIndex != nil && !isnil(t.operation) &&
+//@     t.highCardOutputIndex.nOut == len(t.outputValues) && t.lowCardOutputIndex.nOut == len(t.outputValues)
+//@ pred idsWithin(v, n) = len(v.SampleIDs) == len(v.Samples) && (forall i in 0..len(v.SampleIDs) :: v.SampleIDs[i] < n)
+
+// execBinaryOperation evaluates one step (C05). hitL[o] / hitR[o]: output o was reached by a sample
+// of the left / right vector of THIS step. The table's tags (lhT, rhT) are older than the step on
+// entry, so a tag equal to the step's timestamp means "reached in this step" (C07: no dependence
+// on earlier steps).
+//  - an output reached twice from the same side in one step is an error unless that side is the
+//    "many" side; a right sample is paired only with an output reached from the left in this step;
+//  - the operation receives (left value, right value); with bool the value is 1/0, otherwise a
+//    sample is emitted only if the operation keeps it.
+//@ func (*table).execBinaryOperation
+//@   requires tblInv(t) && lhs.T == rhs.T && lhs.T >= 0
+//@   requires t.card == parser.CardOneToMany ==> idsWithin(lhs, t.lowCardOutputIndex.nIn) && idsWithin(rhs, t.highCardOutputIndex.nIn)
+//@   requires t.card != parser.CardOneToMany ==> idsWithin(lhs, t.highCardOutputIndex.nIn) && idsWithin(rhs, t.lowCardOutputIndex.nIn)
+//@   requires[C07] tags-older-than-step: forall o in 0..len(t.outputValues) :: t.outputValues[o].lhT < lhs.T && t.outputValues[o].rhT < lhs.T
+//@   ghostvar hitL seqbool = constseq(false)
+//@   ghostvar hitR seqbool = constseq(false)
+//@   ensures[C05,C18] step-timestamp: result1 == nil ==> result0.T == lhs.T
+//@   ensures[C05,C18] ids-index-output-series: result1 == nil ==> idsWithin(result0, len(t.outputValues))
+//@   ensures[C07] tags-not-newer-than-step: forall o in 0..len(t.outputValues) :: t.outputValues[o].lhT <= lhs.T && t.outputValues[o].rhT <= lhs.T
+//@   at line "t.outputValues[outputSampleID].lhSampleID = sampleID" assert[C05] left-sample-recorded-once-unless-many-side:
+//@       t.card == parser.CardManyToOne || !hitL[outputSampleID]
+//@   at line "t.outputValues[outputSampleID].lhSampleID = sampleID" set hitL = store(hitL, outputSampleID, true)
+//@   at line "newManyToManyMatchError(prevSampleID, sampleID, lhBinOpSide)" assert[C05] left-duplicate-is-an-error:
+//@       hitL[outputSampleID] && t.card != parser.CardManyToOne
+//@   at line "if t.card != parser.CardOneToMany && outputSample.rhT == rhs.T" assert[C05] right-sample-pairs-only-with-output-reached-this-step:
+//@       hitL[outputSampleID]
+//@   at line "t.outputValues[outputSampleID].rhSampleID = sampleID" assert[C05] right-sample-recorded-once-unless-many-side:
+//@       hitL[outputSampleID] && (t.card == parser.CardOneToMany || !hitR[outputSampleID])
+//@   at line "t.outputValues[outputSampleID].rhSampleID = sampleID" set hitR = store(hitR, outputSampleID, true)
+//@   at line "newManyToManyMatchError(prevSampleID, sampleID, rhBinOpSide)" assert[C05] right-duplicate-is-an-error:
+//@       hitL[outputSampleID] && hitR[outputSampleID] && t.card != parser.CardOneToMany
+//@   at field:execution/binary.table.operation assert[C05] operation-gets-left-then-right: $operands[0] == t.outputValues[outputSampleID].v &&
+//@       $operands[1] == rhVal && $valueIdx == 0
+//@   at line "step.Samples = append(step.Samples, outputVal)" assert[C05] emitted-only-for-matched-pair: hitL[outputSampleID] && hitR[outputSampleID]
+//@   at line "step.Samples = append(step.Samples, outputVal)" assert[C05] bool-yields-one-or-zero: returnBool ==> outputVal == ite(keep, 1.0, 0.0)
+//@   at line "step.Samples = append(step.Samples, outputVal)" assert[C05] filter-keeps-operation-value: !returnBool ==> keep && outputVal == callres("field:execution/binary.table.operation", 1, 0)
+//@   loop 0 invariant ids0: idsWithin(lhs, lhsIndex.nIn) && idsWithin(rhs, rhsIndex.nIn)
+//@   loop 0 invariant tblInv(t) && len(t.outputValues) == old(len(t.outputValues)) && lhsIndex.nOut == len(t.outputValues) && rhsIndex.nOut == len(t.outputValues)
+//@   loop 0 invariant tags0: forall o in 0..len(t.outputValues) :: (hitL[o] <==> t.outputValues[o].lhT == ts) && t.outputValues[o].lhT <= ts && t.outputValues[o].rhT < ts
+//@   loop 1 invariant ids1: idsWithin(lhs, lhsIndex.nIn) && idsWithin(rhs, rhsIndex.nIn)
+//@   loop 1 invariant tblInv(t) && len(t.outputValues) == old(len(t.outputValues)) && lhsIndex.nOut == len(t.outputValues) && rhsIndex.nOut == len(t.outputValues)
+//@   loop 1 invariant tags1: forall o in 0..len(t.outputValues) :: (hitL[o] <==> t.outputValues[o].lhT == ts) && t.outputValues[o].lhT <= ts && t.outputValues[o].rhT < ts
+//@   loop 1 invariant outs1: forall j in 0..len(outputSampleIDs) :: outputSampleIDs[j] < len(t.outputValues)
+//@   loop 2 invariant ids2: idsWithin(lhs, lhsIndex.nIn) && idsWithin(rhs, rhsIndex.nIn)
+//@   loop 2 invariant tblInv(t) && len(t.outputValues) == old(len(t.outputValues)) && lhsIndex.nOut == len(t.outputValues) && rhsIndex.nOut == len(t.outputValues) && step.T == ts
+//@   loop 2 invariant tags2: forall o in 0..len(t.outputValues) :: (hitL[o] <==> t.outputValues[o].lhT == ts) && (hitR[o] <==> t.outputValues[o].rhT == ts) &&
+//@       t.outputValues[o].lhT <= ts && t.outputValues[o].rhT <= ts
+//@   loop 2 invariant step2: len(step.SampleIDs) == len(step.Samples) && fresh(step.SampleIDs) && fresh(step.Samples) &&
+//@       (forall j in 0..len(step.SampleIDs) :: step.SampleIDs[j] < len(t.outputValues))
+//@   loop 3 invariant ids3: idsWithin(lhs, lhsIndex.nIn) && idsWithin(rhs, rhsIndex.nIn)
+//@   loop 3 invariant tblInv(t) && len(t.outputValues) == old(len(t.outputValues)) && lhsIndex.nOut == len(t.outputValues) && rhsIndex.nOut == len(t.outputValues) && step.T == ts
+//@   loop 3 invariant tags3: forall o in 0..len(t.outputValues) :: (hitL[o] <==> t.outputValues[o].lhT == ts) && (hitR[o] <==> t.outputValues[o].rhT == ts) &&
+//@       t.outputValues[o].lhT <= ts && t.outputValues[o].rhT <= ts
+//@   loop 3 invariant step3: len(step.SampleIDs) == len(step.Samples) && fresh(step.SampleIDs) && fresh(step.Samples) &&
+//@       (forall j in 0..len(step.SampleIDs) :: step.SampleIDs[j] < len(t.outputValues))
+//@   loop 3 invariant outs3: forall j in 0..len(outputSampleIDs) :: outputSampleIDs[j] < len(t.outputValues)
